@@ -2,8 +2,243 @@
 
 package main
 
-type c10RenderScn struct{}
+// C10 "render" scenarios: the real RenderFromJSON followed by the real
+// RenderComposedResourceMetadata on generated bases (every shape of metadata,
+// kinds, invalid JSON) and composite resources.
 
-func c10GenRenderScn(r *Rng) *c10Scn { return c10GenPatchScn(r) }
+import (
+	"fmt"
+	"reflect"
+	"strings"
 
-func c10RunRender(s *c10Scn) (any, []Mon, string) { return map[string]any{}, nil, "trivial/render-stub" }
+	corev1 "k8s.io/api/core/v1"
+	"k8s.io/apimachinery/pkg/apis/meta/v1/unstructured"
+	kjson "k8s.io/apimachinery/pkg/util/json"
+
+	ucomposed "github.com/crossplane/crossplane-runtime/pkg/resource/unstructured/composed"
+	ucomposite "github.com/crossplane/crossplane-runtime/pkg/resource/unstructured/composite"
+
+	"github.com/crossplane/crossplane/internal/controller/apiextensions/composite"
+)
+
+type c10RenderScn struct {
+	RefKind       string `json:"refKind"`
+	RefAPIVersion string `json:"refApiVersion"`
+	RefName       string `json:"refName"`
+	RefNamespace  string `json:"refNamespace"`
+	BaseSrc       string `json:"baseSrc"`
+	Base          any    `json:"base"` // the template as the k8s JSON decoder reads it into a map (null: not an object)
+	XR            any    `json:"xr"`
+	TplName       string `json:"tplName"`
+}
+
+// c10DecodeBase decodes template bytes the way Unstructured.UnmarshalJSON does (ints stay int64).
+func c10DecodeBase(src string) any {
+	m := map[string]any{}
+	if err := kjson.Unmarshal([]byte(src), &m); err != nil || m == nil {
+		return nil
+	}
+	return c10Enc(m)
+}
+
+func c10RenderErrClass(err error) string {
+	if err == nil {
+		return ""
+	}
+	msg := err.Error()
+	switch {
+	case strings.Contains(msg, "cannot change the kind"):
+		return "kindChanged"
+	case strings.Contains(msg, "cannot unmarshal JSON data"):
+		return "unmarshal"
+	case strings.Contains(msg, "cannot find top-level composite resource name label"):
+		return "namePrefixLabel"
+	case strings.Contains(msg, "cannot set controller reference"):
+		return "controllerRef"
+	}
+	return "other:" + msg
+}
+
+func c10RunRender(s *c10Scn) (any, []Mon, string) {
+	rs := s.Render
+	xrC, _ := c10Dec(rs.XR).(map[string]any)
+	if xrC == nil {
+		xrC = map[string]any{}
+	}
+	rs.XR = c10Enc(xrC)
+	rs.Base = c10DecodeBase(rs.BaseSrc)
+	var mons []Mon
+	run := func() (string, string, map[string]any, map[string]any) {
+		xr := &ucomposite.Unstructured{Unstructured: unstructured.Unstructured{Object: c10CopyMap(xrC)}}
+		ref := corev1.ObjectReference{APIVersion: rs.RefAPIVersion, Kind: rs.RefKind, Name: rs.RefName, Namespace: rs.RefNamespace}
+		var r *ucomposed.Unstructured
+		var err1, err2 error
+		pn := Guard(func() {
+			r = ucomposed.New(ucomposed.FromReference(ref))
+			err1 = composite.RenderFromJSON(r, []byte(rs.BaseSrc))
+			if err1 == nil {
+				err2 = composite.RenderComposedResourceMetadata(r, xr, composite.ResourceName(rs.TplName))
+			}
+		})
+		if pn != "" {
+			return "panic:" + pn, "", nil, xr.Object
+		}
+		var content map[string]any
+		if r != nil {
+			content = r.Object
+		}
+		return c10RenderErrClass(err1), c10RenderErrClass(err2), content, xr.Object
+	}
+	je, me, cd, xrA := run()
+	if strings.HasPrefix(je, "panic:") {
+		mons = append(mons, Mon{Sig: "C10:panic", Why: "render panicked: " + c10Short(je)})
+		je = "panic"
+	}
+	if strings.HasPrefix(je, "other:") || strings.HasPrefix(me, "other:") {
+		mons = append(mons, Mon{Sig: "C10:unclassified-error", Why: je + " " + me})
+	}
+	if !reflect.DeepEqual(xrA, xrC) {
+		mons = append(mons, Mon{Sig: "C10:source-modified", Why: "RenderComposedResourceMetadata modified the composite resource"})
+	}
+	je2, me2, cd2, _ := run()
+	if strings.HasPrefix(je2, "panic:") {
+		je2 = "panic"
+	}
+	if je2 != je || me2 != me || !reflect.DeepEqual(cd, cd2) {
+		mons = append(mons, Mon{Sig: "C10:nondeterministic", Why: "two renders of the same template differ"})
+	}
+	obs := map[string]any{"jsonErr": je, "metaErr": me}
+	if je != "" {
+		obs["cd"] = nil
+	} else {
+		obs["cd"] = c10Enc(cd)
+	}
+	return obs, mons, fmt.Sprintf("render/ref=%v/%s/%s", rs.RefName != "", c10Or(je, "ok"), c10Or(me, "ok"))
+}
+
+func c10GenMetaVariant(r *Rng, xrUID string) any {
+	switch r.Intn(24) {
+	case 0:
+		return "not-a-map"
+	case 1:
+		return nil
+	case 2:
+		return []any{"x"}
+	}
+	md := map[string]any{}
+	if r.Chance(1, 3) {
+		md["name"] = Pick(r, []string{"from-template", "cd-1"})
+	}
+	if r.Chance(1, 4) {
+		md["namespace"] = "tpl-ns"
+	}
+	if r.Chance(1, 2) {
+		l := map[string]any{"app": "x"}
+		if r.Chance(1, 4) {
+			l["crossplane.io/composite"] = "stale"
+		}
+		if r.Chance(1, 6) {
+			l["num"] = int64(5) // not a string: GetLabels gives up
+		}
+		md["labels"] = l
+	} else if r.Chance(1, 8) {
+		md["labels"] = Pick(r, []any{"str", nil, []any{}})
+	}
+	if r.Chance(1, 2) {
+		a := map[string]any{"crossplane.io/external-name": "ext"}
+		if r.Chance(1, 4) {
+			a["crossplane.io/composition-resource-name"] = "old-name"
+		}
+		if r.Chance(1, 6) {
+			a["flag"] = true
+		}
+		md["annotations"] = a
+	}
+	if r.Chance(1, 3) {
+		refs := []any{}
+		for i, n := 0, r.Range(1, 2); i < n; i++ {
+			o := map[string]any{"apiVersion": "example.org/v1", "kind": "Owner", "name": fmt.Sprintf("o%d", i), "uid": Pick(r, []string{"uid-other", xrUID, "uid-3"})}
+			if r.Chance(1, 2) {
+				o["controller"] = r.Chance(2, 3)
+			}
+			if r.Chance(1, 3) {
+				o["blockOwnerDeletion"] = r.Bool()
+			}
+			refs = append(refs, o)
+		}
+		if r.Chance(1, 8) {
+			refs = append(refs, "not-a-map")
+		}
+		md["ownerReferences"] = refs
+	} else if r.Chance(1, 10) {
+		md["ownerReferences"] = "str"
+	}
+	return md
+}
+
+func c10GenBase(r *Rng, xrUID string) string {
+	switch r.Intn(30) {
+	case 0:
+		return Pick(r, []string{"{bad", "", "[1,2]", "\"str\"", "5", "null", "{\"kind\":5}", "{\"kind\":\"\"}"})
+	}
+	m := map[string]any{"apiVersion": "example.org/v1", "spec": c10GenObj(r, 2)}
+	switch r.Intn(15) {
+	case 0:
+	case 1:
+		m["kind"] = "Other"
+	default:
+		m["kind"] = "Thing"
+	}
+	if r.Chance(3, 4) {
+		m["metadata"] = c10GenMetaVariant(r, xrUID)
+	}
+	return mustJSON(c10PlainJSON(m))
+}
+
+// c10PlainJSON keeps a generated value as is (floats print as JSON numbers).
+func c10PlainJSON(v any) any { return v }
+
+func c10GenRenderXR(r *Rng) map[string]any {
+	xr := map[string]any{"apiVersion": "example.org/v1", "kind": "XThing", "spec": c10GenObj(r, 1)}
+	md := map[string]any{"name": "my-xr"}
+	if r.Chance(7, 8) {
+		md["uid"] = "uid-xr"
+	}
+	switch r.Intn(10) {
+	case 0:
+	case 1:
+		md["labels"] = map[string]any{"other": "x"}
+	case 2:
+		md["labels"] = map[string]any{"crossplane.io/composite": "my-xr", "bad": int64(3)}
+	case 3:
+		md["labels"] = map[string]any{"crossplane.io/composite": ""}
+	default:
+		l := map[string]any{"crossplane.io/composite": Pick(r, []string{"my-xr", "claim-abc"})}
+		if r.Bool() {
+			l["crossplane.io/claim-name"] = "claim"
+			l["crossplane.io/claim-namespace"] = "team-a"
+		}
+		md["labels"] = l
+	}
+	xr["metadata"] = md
+	return xr
+}
+
+func c10GenRenderScn(r *Rng) *c10Scn {
+	xr := c10GenRenderXR(r)
+	rs := &c10RenderScn{XR: c10Enc(xr), TplName: Pick(r, []string{"", "bucket", "db"})}
+	if r.Chance(1, 2) {
+		rs.RefAPIVersion, rs.RefKind, rs.RefName = "example.org/v1", Pick(r, []string{"Thing", "Thing", "Thing", "Other"}), "cd-1"
+		if r.Chance(1, 4) {
+			rs.RefNamespace = "ns"
+		}
+		if r.Chance(1, 8) {
+			rs.RefName = ""
+		}
+		if r.Chance(1, 10) {
+			rs.RefAPIVersion = "example.org/v1beta1"
+		}
+	}
+	rs.BaseSrc = c10GenBase(r, "uid-xr")
+	return &c10Scn{Kind: "render", Render: rs}
+}
